@@ -19,6 +19,11 @@ IGNORE = re.compile(
     r'std::string::String::(new|push|push_str)|std::borrow::Borrow::borrow|std::ptr::.*|std::mem::MaybeUninit.*|std::slice::.*into_vec.*)$')
 
 
+ALPHABET = re.compile(r'^<?&?(F::|gdsl::|std::vec::Vec|std::collections::|HSET|HMAP|\[T\]|PTR|WPTR|CELL|std::cmp::|std::iter::|<std::\S+ as std::iter::|'
+                      r'std::option::Option|std::result::Result|std::mem::(swap|replace|take)|serde::|<\S+ as serde::|std::default::Default|<\S+ as std::default::Default>|'
+                      r'std::ops::(Index|IndexMut|Fn|FnMut|FnOnce)|<\S+ as std::ops::Index|std::hash::|std::marker::PhantomData)')
+
+
 def unflav(s):
     return FLAV_RE.sub('F::', s)
 
@@ -127,7 +132,12 @@ def bag(F, b):
                 name = c
             if name.startswith('<indirect'):
                 name = 'INDIRECT'
-            ev[('CALL', normname(name), depth, ctx_of(bi))] += 1
+            nn = normname(name)
+            # closed event alphabet: crate-local calls, user code (trait calls on K/N/E, callbacks) and a fixed table of std
+            # collection / pointer / comparison / iterator / serde operations; any other std call (printing, env, strings) is not an event
+            if not (t.get('local') or t.get('rk') in ('unresolved', 'virtual', 'indirect') or nn == 'INDIRECT' or ALPHABET.match(nn)):
+                continue
+            ev[('CALL', nn, depth, ctx_of(bi))] += 1
     return ev
 
 
@@ -153,21 +163,40 @@ PLUMBING = re.compile(r'^(std::iter::Iterator::(?!rev$|skip$|take$|step_by$|skip
                       r'\[T\]::iter|std::vec::Vec::iter|<&std::vec::Vec as std::iter::IntoIterator>::into_iter|<std::vec::Vec as std::iter::IntoIterator>::into_iter)$')
 
 
+STD_ONLY = re.compile(r'^(std::vec::|std::collections::|HSET|HMAP|\[T\]::|std::iter::|<&?std::|<I as std::iter::|std::option::|std::result::|std::mem::(swap|replace|take)$|std::cmp::(min|max)$)')
+
+
+# std operations whose presence/absence on one side only is a matter of idiom (read-only queries, cursor-style consumption, iterator
+# adaptors that keep order and multiplicity); mutating or order-changing ones (truncate, drain, retain, sort, swap_remove, ...) are not
+IDIOM_OPS = {'contains', 'contains_key', 'get', 'len', 'is_empty', 'iter', 'into_iter', 'next', 'position', 'enumerate', 'map', 'cloned', 'copied', 'collect',
+             'pop', 'reverse', 'rev', 'last', 'first', 'ok_or', 'ok_or_else', 'unwrap_or', 'is_some', 'is_none', 'is_ok', 'is_err', 'as_ref', 'values', 'keys',
+             'any', 'all', 'find', 'for_each', 'count', 'with_capacity', 'new', 'default', 'and_then', 'ok', 'filter_map', 'flatten', 'zip', 'chain', 'by_ref', 'peekable'}
+
+
 def coarse(F, b, seen=None):
-    """control-structure-free abstraction: multiset of (kind, name) with closures inlined and iterator / Option / Result plumbing dropped"""
+    """control-structure-free abstraction: the *set* of (kind, name) of primitive events reachable from b, with closures and
+    crate-local callees inlined transitively and iterator / Option / Result plumbing dropped"""
     seen = seen if seen is not None else set()
-    out = collections.Counter()
+    out = set()
     if b['q'] in seen:
         return out
     seen.add(b['q'])
+    local_bodies = {}
+    for bi, t in calls_in(b):
+        r = t.get('res', '')
+        if t.get('local') and r in F.bodies:
+            local_bodies[normname(r)] = F.bodies[r]
     for (kind, name, depth, cx), n in bag(F, b).items():
         if kind == 'CALL' and PLUMBING.match(name):
             continue
         if kind == 'AGGR' and (name.startswith('std::option::Option::') or name.startswith('std::result::Result::') or name.startswith('std::ops::ControlFlow::') or name.startswith('closure:')):
             continue
-        if kind == 'BINOP':
+        if kind in ('BINOP', 'RET'):
             continue
-        out[(kind, name)] += n
+        if kind == 'CALL' and name in local_bodies:
+            out |= coarse(F, local_bodies[name], seen)
+            continue
+        out.add((kind, name))
     for bb in b['blocks']:
         if bb['cleanup']:
             continue
@@ -175,7 +204,7 @@ def coarse(F, b, seen=None):
             if s['k'] == 'assign' and s['rv']['k'] == 'aggr' and s['rv']['ak'].startswith('closure:'):
                 cb = F.bodies.get(s['rv']['ak'][len('closure:'):])
                 if cb is not None:
-                    out.update(coarse(F, cb, seen))
+                    out |= coarse(F, cb, seen)
     return out
 
 
@@ -219,13 +248,16 @@ def sib(ctx):
             # and involve the same operations (closures inlined, iterator/Option/Result plumbing ignored)
             owner_a = re.sub(r'(::\{closure#\d+\})+$', '', pa['q'])
             owner_s = re.sub(r'(::\{closure#\d+\})+$', '', sy['q'])
-            if coarse(F, F.bodies.get(owner_a, pa)) == coarse(F, F.bodies.get(owner_s, sy)):
+            cdiff = coarse(F, F.bodies.get(owner_a, pa)) ^ coarse(F, F.bodies.get(owner_s, sy))
+            # the copies may differ in which std collection / iterator operations they use (idiom), never in crate-local calls,
+            # user-code calls, crate types or enum variants
+            if all(k == 'CALL' and STD_ONLY.match(n) and n.split('::')[-1].rstrip('>') in IDIOM_OPS for k, n in cdiff):
                 cov = cov if cov is not None else rule_coverage(ctx)
                 ca, cs = cov.get(owner_a), cov.get(owner_s)
                 if ca and cs and ca[0] > 0 and cs[0] > 0 and ca[1] and cs[1]:
                     tolerated.append('%s (%d/%d dedicated obligations pass)' % (sy['q'], ca[0], cs[0]))
                     out.append(Obl('SIB', unflav(pa['q']).replace('F::', '%s|%s::' % (F.flavour(pa), F.flavour(sy)), 1), sy['span'], 'same program up to Rc/Arc, RefCell/RwLock', True,
-                                   'control structure differs, same operations; both copies pass their dedicated rules (%d / %d obligations)' % (ca[0], cs[0])))
+                                   'control structure / std idiom differs (%s), same crate-level operations; both copies pass their dedicated rules (%d / %d obligations)' % (', '.join(sorted(n.split('::')[-1] for k, n in cdiff)) or 'shape only', ca[0], cs[0])))
                     continue
             why = 'plain-only: %s | sync-only: %s' % ('; '.join('%s %s d%d [%s] x%d' % (k[0], k[1], k[2], ','.join(k[3]), n) for k, n in list(d1.items())[:4]),
                                                        '; '.join('%s %s d%d [%s] x%d' % (k[0], k[1], k[2], ','.join(k[3]), n) for k, n in list(d2.items())[:4]))
